@@ -4,6 +4,7 @@ import Driver.Mint
 import Driver.Filetree
 import Driver.Storage
 import Driver.Genesis
+import Driver.Msgs
 open Lean (Json)
 
 /-- Line protocol: one JSON step record per line on stdin; one verdict line per record on stdout:
@@ -23,6 +24,9 @@ def checkLine (line : String) : String :=
       | "filetree" => Driver.Filetree.check j
       | "storage" => Driver.Storage.check j
       | "genesis" => Driver.Genesis.check j
+      | "oracle" => Driver.Msgs.checkOracle j
+      | "wasm" => Driver.Msgs.checkWasm j
+      | "msgtable" => Driver.Msgs.checkTable j
       | "path" => Driver.Filetree.checkPath j
       | "panic" => .ok (some s!"panic {(j.getObjValAs? String "where").toOption.getD ""}: {(j.getObjValAs? String "panic").toOption.getD ""}")
       | m => .error s!"unknown mod {m}"
